@@ -953,6 +953,13 @@ func main() {
 				defer wg.Done()
 				stallErr = runStall(func(s *Step) { stallOut = append(stallOut, s) })
 			}()
+			var backlogOut []*Step
+			var backlogErr error
+			wg.Add(1)
+			go func() {
+				defer wg.Done()
+				backlogErr = runBacklog(func(s *Step) { backlogOut = append(backlogOut, s) })
+			}()
 			for i, c := range cases {
 				wg.Add(1)
 				go func(i int, c ex) {
@@ -973,6 +980,12 @@ func main() {
 				fail(stallErr)
 			}
 			for _, s := range stallOut {
+				emit(s)
+			}
+			if backlogErr != nil {
+				fail(backlogErr)
+			}
+			for _, s := range backlogOut {
 				emit(s)
 			}
 		}
